@@ -55,6 +55,11 @@ CLAIMED = {
         "Static: int(Note) == 12*octave + natural + sharps - flats for every letter, accidental string and octave; int(from_int(i)) == i as linear forms; each rich comparison agrees with the ordering of the two integers on every path and distinguishes all three orderings; set_note parses 'Name' and 'Name-octave', rejects malformed names, the copy constructor forwards name/octave/velocity/channel; velocity outside 0..127 and channel outside 0..15 are rejected on both unbounded sides and no other code writes those attributes; Helmholtz output has the right case and exactly 2-octave commas / octave-3 primes for a symbolic octave, and reading it back restores letter, accidentals and octave for any number of marks; A-4 sits at the standard pitch, frequency doubles per octave and from_hertz inverts to_hertz over 0..127 (3 pitches, detuned -40/0/+40 cents).",
         "Hz clause is a specialisation over the finite MIDI range with host floats, not a proof for all detunings. Independence of copies is decided under C15. Trusted: CPython ast, abstract evaluator (variants/c10.py), C01 summaries.",
         "DESIGN.md section 2, C10"),
+    "C11": (
+        "lifting (pass-through) analysis of transpose/augment/diminish at NoteContainer, Bar and Track level by abstract evaluation on containers of recording stubs; decision-table evaluation of Note.transpose's octave fix-up; interval evaluation of the octave clamp",
+        "Static: at each container level each of the three operations calls the same-named operation exactly once on every element, in order, with its own parameters forwarded unchanged, skips rests (None) and leaves beats, values and rests untouched; Note.transpose renames through intervals.from_shorthand(old name, interval, up) and adjusts the octave by +1 exactly when going up and the renamed note compares lower than the note saved before the rename, by -1 exactly when going down and it compares higher; change_octave never yields a negative octave and equals octave + diff otherwise; Note.augment/diminish change the name by one semitone and keep the letter.",
+        "Semitone exactness of the renamed note is C03's; that the octave fix-up is right for every spelling is a numeric fact not decided here. Trusted: CPython ast, abstract evaluator (variants/c11.py), C01/C03 summaries.",
+        "DESIGN.md section 2, C11"),
     "C06": (
         "offset-domain abstract interpretation of every chord builder (interval constructors summarised by their C02 post-condition) against a meaning-keyed chord-theory oracle; table agreement; abstract evaluation of the shorthand parser on root shapes x keys, aliases, slash, polychord, NC, list and malformed classes",
         "Static: each of the shorthand builders (incl. the lambda) yields, for 7 root letters x arbitrary accidentals, exactly the (letter, semitone) list its meaning prescribes; chord_shorthand and chord_shorthand_meaning have equal key sets; from_shorthand maps every key, every min/mi/-/maj/ma alias spelling, slash basses, polychords, NC and list input to the right builder result and rejects unknown suffixes / bad roots / bad basses with the documented errors.",
